@@ -399,8 +399,13 @@ func drawPW(t *rapid.T) *PW {
 	}
 	// masses: jump at each knot, ramp on each segment; zero allowed
 	mass := func(label string) float64 {
-		if rapid.IntRange(0, 2).Draw(t, label+".zero") == 0 {
+		switch rapid.IntRange(0, 5).Draw(t, label+".zero") {
+		case 0, 1:
 			return 0
+		case 2:
+			// a very light atom or ramp: the CDF rises by an ulp or a few of its value, in the
+			// middle of what is otherwise a flat stretch
+			return gen.LogUniform(t, 1e-17, 1e-9, label+".light")
 		}
 		return rapid.Float64Range(0.01, 1).Draw(t, label)
 	}
